@@ -39,6 +39,12 @@ type c08Scenario struct {
 	Events   []c08Event  `json:"events"` // streamed after the rollback (seq > R, increasing)
 	Second   string      `json:"second"` // ok | error | rollback
 	Colls    []uint32    `json:"colls"`
+	// Mid: the session starts normally from the checkpoint; its stream then ends with a transient cause and it is the
+	// re-request inside the running session that the server answers with the rollback (the observer object lives on).
+	// Mitig: rollback mitigation is enabled (real polling of OBSERVE_SEQNO); the vBucket's single copy reports everything
+	// persisted, once - the vBucket is quiet afterwards.
+	Mid   bool `json:"mid,omitempty"`
+	Mitig bool `json:"mitig,omitempty"`
 }
 
 func c08Exec(sc c08Scenario) (detail string, labels map[string]bool) {
@@ -64,6 +70,12 @@ func c08Exec(sc c08Scenario) (detail string, labels map[string]bool) {
 	nReq := 0
 	c.OnStreamReq = func(r simnode.StreamReq) simnode.StreamReply {
 		nReq++
+		if sc.Mid && sc.Second == "ok" {
+			if nReq == 2 {
+				return simnode.StreamReply{Status: memd.StatusRollback, RollbackTo: sc.R}
+			}
+			return simnode.StreamReply{Status: memd.StatusSuccess}
+		}
 		if nReq == 1 {
 			return simnode.StreamReply{Status: memd.StatusRollback, RollbackTo: sc.R}
 		}
@@ -93,13 +105,28 @@ func c08Exec(sc c08Scenario) (detail string, labels map[string]bool) {
 		e.cfg.Dcp.Mode = "finite"
 		wantEnd = high
 	}
+	mid := sc.Mid && sc.Second == "ok"
 	checkReqs := func() string {
 		reqs := c.StreamReqs()
+		if mid {
+			if len(reqs) != 3 {
+				return fmt.Sprintf("node saw %d DCP_STREAM_REQ for vb %d, want exactly 3 (start, request after the stream end, re-request after rollback)", len(reqs), vb)
+			}
+			if r0 := reqs[0]; r0.Start != sc.F || r0.UUID != sc.CkUUID || r0.SnapStart != sc.SnapS || r0.SnapEnd != sc.SnapE {
+				return fmt.Sprintf("session start requested start=%d uuid=%d snap=[%d,%d], checkpoint is seq=%d uuid=%d snap=[%d,%d]", r0.Start, r0.UUID, r0.SnapStart, r0.SnapEnd, sc.F, sc.CkUUID, sc.SnapS, sc.SnapE)
+			}
+			reqs = reqs[1:]
+		}
 		if len(reqs) != 2 {
 			return fmt.Sprintf("node saw %d DCP_STREAM_REQ for vb %d, want exactly 2 (request, re-request after rollback)", len(reqs), vb)
 		}
 		r1, r2 := reqs[0], reqs[1]
-		if r1.Start != sc.F || r1.UUID != sc.CkUUID || r1.SnapStart != sc.SnapS || r1.SnapEnd != sc.SnapE {
+		if mid {
+			// the request after the stream end starts from the position reached (nothing was delivered: still F)
+			if r1.Start != sc.F {
+				return fmt.Sprintf("request after the stream end starts at %d, the position reached is %d", r1.Start, sc.F)
+			}
+		} else if r1.Start != sc.F || r1.UUID != sc.CkUUID || r1.SnapStart != sc.SnapS || r1.SnapEnd != sc.SnapE {
 			return fmt.Sprintf("first request start=%d uuid=%d snap=[%d,%d], checkpoint is seq=%d uuid=%d snap=[%d,%d]", r1.Start, r1.UUID, r1.SnapStart, r1.SnapEnd, sc.F, sc.CkUUID, sc.SnapS, sc.SnapE)
 		}
 		if r2.Start != sc.R {
@@ -137,6 +164,15 @@ func c08Exec(sc c08Scenario) (detail string, labels map[string]bool) {
 		return checkReqs(), labels
 	}
 
+	if sc.Mitig {
+		e.cfg.RollbackMitigation.Disabled = false
+		e.cfg.RollbackMitigation.Interval = 4 * time.Millisecond
+		e.cfg.RollbackMitigation.ConfigWatchInterval = 10 * time.Millisecond
+		c.Lock()
+		c.Persist[[2]int{int(vb), 0}] = [2]uint64{sc.Log[0][0], 1 << 40}
+		c.Unlock()
+		labels["rollback_mitigation_on"] = true
+	}
 	fm := newFakeMeta()
 	fm.durable[vb] = ckTuple{UUID: sc.CkUUID, Seq: sc.F, Start: sc.SnapS, End: sc.SnapE}
 	cons := &fakeConsumer{}
@@ -154,6 +190,34 @@ func c08Exec(sc c08Scenario) (detail string, labels map[string]bool) {
 			within(30*time.Second, func() { st.Close(false) })
 		}
 	}()
+	if mid {
+		s0 := c.Stream(vb)
+		if s0 == nil {
+			return "no open stream on the node after the session start", labels
+		}
+		if sc.Mitig {
+			// let the persisted position be observed and handed to the observer before the stream ends
+			deadline := time.Now().Add(5 * time.Second)
+			for n := 0; n < 2 && time.Now().Before(deadline); time.Sleep(time.Millisecond) {
+				n = 0
+				for _, en := range c.Log() {
+					if en.Cmd == cmdObserveSeqNo && en.Vb == vb && en.Replied && en.Reply == 0 {
+						n++
+					}
+				}
+			}
+			time.Sleep(15 * time.Millisecond)
+		}
+		s0.End(memd.StreamEndStateChanged)
+		deadline := time.Now().Add(10 * time.Second)
+		for len(c.StreamReqs()) < 3 || c.Stream(vb) == nil || c.Stream(vb) == s0 {
+			if time.Now().After(deadline) {
+				return fmt.Sprintf("the stream ended with a transient cause; the node saw %d requests afterwards and has no new open stream", len(c.StreamReqs())-1), labels
+			}
+			time.Sleep(time.Millisecond)
+		}
+		labels["rollback_on_request_inside_session"] = true
+	}
 	if d := checkReqs(); d != "" {
 		return d, labels
 	}
@@ -211,8 +275,8 @@ func c08Exec(sc c08Scenario) (detail string, labels map[string]bool) {
 	s.End(memd.StreamEndOK)
 	select {
 	case <-stopCh:
-	case <-time.After(20 * time.Second):
-		return "events and the clean stream end were sent but the stream never finished", labels
+	case <-time.After(15 * time.Second):
+		return fmt.Sprintf("events and the clean stream end were sent but the stream never finished (consumer has %d events)", len(cons.snapshot())), labels
 	}
 	got := cons.snapshot()
 	newUUID := sc.Log[0][0]
@@ -320,6 +384,8 @@ func c08Gen(t *rapid.T) c08Scenario {
 		}
 	}
 	sc.Colls = rapid.SliceOfNDistinct(rapid.Uint32Range(8, 12), 0, 2, func(u uint32) uint32 { return u }).Draw(t, "colls")
+	sc.Mid = rapid.IntRange(0, 3).Draw(t, "mid") == 0
+	sc.Mitig = rapid.IntRange(0, 2).Draw(t, "mitig") == 0
 	return sc
 }
 
